@@ -116,7 +116,7 @@ def run(ctx):
             "FFT64: the theorems are about the exact binary64 model (Model/F64.lean, Model/Fft64.lean); that the hardware/compiler implement "
             "IEEE-754 round-to-nearest-even for f64 + - * and the i64<->f64 conversions, and that rustc does not contract a*b+c, is tied bit for bit "
             "(never proved)",
-            "FFT64: the twiddle tables are computed by libm sin/cos (not modelled); the hypothesis `TableAccurate (2^-50)` of the error theorems is "
+            "FFT64: the twiddle tables are computed by libm sin/cos (not modelled); the hypothesis `Fft64.TableAccurate (2^-51)` of `fft64_pipeline_exact_numeric` is "
             "checked numerically on every dumped table (exact fixed-point interval arithmetic), not proved",
             "FFT64: the AVX2/FMA kernels of FFT64Avx are a different evaluation order (fused multiply-add) and are not covered by the model; they are "
             "compared with FFT64Ref through the exact-integer `hal` tie only",
